@@ -118,6 +118,10 @@ func checkMulti(c *runner.Ctx, src []byte, desc, mode string) {
 	for _, n := range names {
 		os.WriteFile(filepath.Join(dir, n), src, 0644)
 	}
+	// what repositories keep next to generated code: dot files, a hidden directory
+	os.WriteFile(filepath.Join(dir, ".gitkeep"), nil, 0644)
+	os.WriteFile(filepath.Join(dir, ".DS_Store"), []byte{0, 1, 2}, 0644)
+	os.MkdirAll(filepath.Join(dir, ".idea"), 0755)
 	args := []string{"-d", dir}
 	if mode == "-p" {
 		args = []string{"-p", filepath.Join(dir, "*.pb.go")}
